@@ -20,6 +20,8 @@ type c11path struct {
 	Middle []string `json:"middle"`
 	Cause  string   `json:"cause"`
 	Gossip string   `json:"gossip"`
+	// Dev: exactly one answer of the environment returns 1.5 s after taking effect (installed after the CONNECT)
+	Dev *Deviation `json:"one_late_answer,omitempty"`
 }
 
 var c11middle = []string{"sub-a", "sub-b#", "sub-a+b#", "unsub-a", "unsub-b#", "ping", "idle-1s", "idle-3.5s", "idle-0.9K", "idle-1.4K", "recv"}
@@ -65,7 +67,7 @@ func c11paths() []c11path {
 				continue
 			}
 			for _, c := range []string{"none", "disconnect", "drop"} {
-				out = append(out, c11path{1, k, s, c, "auto"})
+				out = append(out, c11path{1, k, s, c, "auto", nil})
 			}
 		}
 	}
@@ -96,7 +98,7 @@ func c11paths() []c11path {
 				}
 			}
 			for _, c := range causes1 {
-				out = append(out, c11path{1, k, s, c, "auto"})
+				out = append(out, c11path{1, k, s, c, "auto", nil})
 			}
 			if len(s) > 2 && !vk.Thorough() {
 				continue
@@ -113,19 +115,29 @@ func c11paths() []c11path {
 					if c == "displaced-other-node-unaware" && g != "withhold-all" && g != "reverse" {
 						continue // needs every broadcast withheld until the second connection is accepted
 					}
-					out = append(out, c11path{2, k, s, c, g})
+					out = append(out, c11path{2, k, s, c, g, nil})
 				}
 			}
 			if len(s) <= 1 && k == 10 {
 				// the end of the session is still in node 1's transmit queue when another node (3) is declared failed: what
 				// node 1 queues because of that failure must not cost the queued removals their delivery
 				for _, c := range []string{"none", "disconnect", "drop", "subscribe-and-drop"} {
-					out = append(out, c11path{3, k, s, c, "queued-while-node-3-fails"})
+					out = append(out, c11path{3, k, s, c, "queued-while-node-3-fails", nil})
 				}
 			}
 			if vk.Thorough() && len(s) <= 1 {
 				for _, c := range causes2 {
-					out = append(out, c11path{3, k, s, c, "auto"}, c11path{3, k, s, c, "withhold-all"})
+					out = append(out, c11path{3, k, s, c, "auto", nil}, c11path{3, k, s, c, "withhold-all", nil})
+				}
+			}
+		}
+	}
+	// one late answer: short scripts without long silences (a held write adds to the client's silence), keep-alive 10 s
+	for _, n := range []int{1, 2} {
+		for _, mid := range [][]string{{}, {"sub-a"}, {"sub-a+b#"}, {"ping"}, {"sub-a", "recv"}} {
+			for _, c := range []string{"none", "disconnect", "drop", "displaced-same-node", "subscribe-and-drop"} {
+				for k := 1; k <= 10; k++ {
+					out = append(out, c11path{Nodes: n, K: 10, Middle: mid, Cause: c, Gossip: "auto", Dev: &Deviation{"client-write", k, 1500 * time.Millisecond}})
 				}
 			}
 		}
@@ -169,6 +181,7 @@ func TestC11Lifecycle(t *testing.T) {
 				}
 				sid := c.SessionID
 				w.PumpGossip()
+				w.SetDeviation(p.Dev)
 				// a witness publishes later to check nothing reaches an ended session
 				alive := func(stage string) bool {
 					if c.BrokerClosed() {
